@@ -440,8 +440,9 @@ fn c09_curve<G: Cv>(o: &Opts, env: &Env, drv: &mut Driver, rep: &mut Report, rng
         honest::<G>(env, drv, rep, "honest-short-nonces", class, &x, &label, None, &env.keys[if thorough { si % env.keys.len() } else { 0 }], tape);
     }
     // out-of-range security parameters are refused
-    for (k, p) in [0usize, 1, 127, 257, 1000, 65535, 65536, 1 << 32].iter().enumerate() {
-        if !thorough && o.scale == 1 && k % 2 == (G::BE as usize) && ![127, 257].contains(p) { continue; }
+    // (incl. values that fall into 128..=256 after truncation to 16 or 32 bits: the parameter travels as a u16 on the wire)
+    for (k, p) in [0usize, 1, 127, 257, 1000, 65535, 65536, 1 << 32, 65536 + 128, 65536 + 200, 65536 + 256, 2 * 65536 + 128, (1 << 32) + 128, (1 << 32) + 256, usize::MAX].iter().enumerate() {
+        if !thorough && o.scale == 1 && k % 2 == (G::BE as usize) && ![127, 257, 65536 + 128, (1usize << 32) + 256].contains(p) { continue; }
         let (xname, x) = &xs[(k + 3) % xs.len()];
         let tape = random_tape::<G>(rng, 4);
         honest::<G>(env, drv, rep, "param-out-of-range", xname, x, b"label", Some(*p), &env.keys[0], tape);
@@ -528,17 +529,20 @@ fn c10_curve<G: Cv>(o: &Opts, env: &Env, drv: &mut Driver, rep: &mut Report, rng
     for round in 0..rounds {
         let (xname, x) = &xs[[8usize, 2, 3, 5][round % 4]];
         let mut label = vec![0u8; [10usize, 0, 33][round % 3]]; rng.fill_bytes(&mut label);
-        let tape = random_tape::<G>(rng, 128);
-        let Some(bytes) = honest::<G>(env, drv, rep, "honest", xname, x, &label, None, key, tape) else { continue };
+        // second half of every round: a proof with MORE slots than the default (parameter 200 / 256); altered bytes in the slots
+        // beyond 128 must be noticed like those in the first 128
+        for sp in [128usize, if round % 2 == 0 { 256 } else { 200 }] {
+        let tape = random_tape::<G>(rng, sp);
+        let Some(bytes) = honest::<G>(env, drv, rep, "honest", xname, x, &label, if sp == 128 { None } else { Some(sp) }, key, tape) else { continue };
         let q = G::generator() * *x;
-        let (gsz, esz, sp) = (G::POINT_LEN, key.pk.size(), 128usize);
+        let (gsz, esz) = (G::POINT_LEN, key.pk.size());
         let slots_end = 40 + sp * (gsz + 2 * esz);
         let mut positions: Vec<usize> = vec![];
-        let exhaustive = thorough && round == 0;
+        let exhaustive = thorough && round == 0 && sp == 128;
         if exhaustive { positions = (0..bytes.len()).collect(); rep.exhaustive.push(format!("{}: every byte position 0..{} of one serialised proof altered; predicate evaluated on the implementation at every position, model verdict compared at every 8th position and at all header positions", G::NAME, bytes.len())); }
         else {
             positions.extend([0, 1, 15, 31]); positions.extend(32..40);
-            for s in [0usize, 1, 63, 126, 127] {
+            for s in if sp == 128 { vec![0usize, 1, 63, 126, 127] } else { vec![0usize, 127, 128, 129, sp - 57, sp - 1] } {
                 let o0 = 40 + s * (gsz + 2 * esz);
                 positions.extend([o0, o0 + 1, o0 + gsz / 2, o0 + gsz - 1]);                                        // g_r
                 positions.extend([o0 + gsz, o0 + gsz + 1, o0 + gsz + esz / 2, o0 + gsz + esz - 1]);                // enc_x_r
@@ -546,7 +550,7 @@ fn c10_curve<G: Cv>(o: &Opts, env: &Env, drv: &mut Driver, rep: &mut Report, rng
                 let s0 = slots_end + s * 32;
                 positions.extend([s0, s0 + 1, s0 + 16, s0 + 31]);                                                  // opened scalar
             }
-            for _ in 0..(150 - positions.len().min(150)) { positions.push(rng.gen_range(0..bytes.len())); }
+            for _ in 0..((if sp == 128 { 150 } else { 130 }) - positions.len().min(130)) { positions.push(rng.gen_range(0..bytes.len())); }
         }
         for pos in positions {
             let mut b = bytes.clone();
@@ -567,6 +571,7 @@ fn c10_curve<G: Cv>(o: &Opts, env: &Env, drv: &mut Driver, rep: &mut Report, rng
             let mv = ask(drv, env, &rv);
             if !same_verdict(&v, &mv) && !explained { rep.diverge(Failure { stream: "tamper-byte".into(), index: idx, request: vec![rv], impl_out: v, model_out: mv, key: "venc:verify-model".into(), what: format!("Lean model and implementation verdicts differ on a proof with one altered byte (field {cls})") }); }
         }
+        if sp != 128 { continue; }
         // ---------------- (b) context substitution
         let g = G::generator();
         let mut subs: Vec<(&str, G, Vec<u8>, &Key)> = vec![];
@@ -598,6 +603,7 @@ fn c10_curve<G: Cv>(o: &Opts, env: &Env, drv: &mut Driver, rep: &mut Report, rng
             let md = ask(drv, env, &rd);
             if md != d { rep.diverge(fail("venc:decrypt-model", format!("Lean model and implementation decrypt results differ under context substitution {name}"), &d, &md)); }
         }
+        }
     }
     // ---------------- (c) adversarial provers (Lean `advProver`), transported into the real from_bytes / verify / decrypt
     let mut strategies: Vec<(String, usize)> = vec![];
@@ -609,6 +615,8 @@ fn c10_curve<G: Cv>(o: &Opts, env: &Env, drv: &mut Driver, rep: &mut Report, rng
     strategies.push(("garbage:raw:0,200:200".into(), 256)); strategies.push((if G::BE { "shortxr:4" } else { "shortr:4" }.into(), 200)); strategies.push(("plain".into(), 257)); strategies.push(("wrongside:256".into(), 257));
     // exactly ONE conjunct of the per-slot acceptance condition violated (commitment relation of the selected side /
     // re-encryption equals the ciphertext of the selected side), everything else honest, challenge recomputed, no grinding
+    // the same single-conjunct / wrong-opening forgeries in slots BEYOND the default 128 of a larger proof
+    for (s, n) in [("wrongcommit:200", 256usize), ("wrongside:255", 256), ("commit-other-side:130", 200), ("open-plus-order:199", 200), ("swap:one:128", 256), ("cross:128:255", 256)] { strategies.push((s.to_string(), n)); }
     for s in ["swap:all", "swap:one:0", "cross:0:1", "cross:5:100", "commit-other-side:0", "commit-other-side:3,64", "open-plus-order:0", "open-plus-order:127"] { strategies.push((s.to_string(), 128)); }
     // adaptive forgers that know only Q: each assumes the verifier's challenge omits one component class
     for d in ["g_r", "enc_x_r", "enc_r", "label", "Q"] { strategies.push((format!("adaptive:{d}"), 128)); }
